@@ -1523,8 +1523,13 @@ def check_reset_rerun(D, S):
             found.append(tuple(int(v) for v in sl.data))
             if list(sl.data) != list(sl.memory._init._raw) or sl.write_queue:
                 bad.append("memory")
-    if sorted(found) != declared:
-        bad.append("memory-declared-init")
+    rest = list(found)                            # library cells (FIFOs) bring memories of their own: every DECLARED
+    for d_ in declared:                           # memory must be among the engine's memories with its declared contents
+        if d_ in rest:
+            rest.remove(d_)
+        else:
+            bad.append("memory-declared-init")
+            break
     if bad or sim1._engine.now != 0:
         return "reset-init", {"not_initial": bad, "now": int(sim1._engine.now)}, stats
     del tr1[:]
